@@ -10,6 +10,7 @@ PROP = {
              "Unit TestCrossFlowWalk: a host flow that incorporates a guard flow (1-3 request Filters with conditional exits and an optional answering processor, 1-2 response Filters) in front of its own 1-2 request Filters "
              "(optional answering processor) and behind its own 1-2 response Filters; non-trivial: the request path crosses from the guard into the host, or is answered"),
     "assumptions": [
+        "every case is built and run at a generated log level (off, error, debug, trace; output discarded): at an enabled level the log statements of the loader and the engine format their arguments, which is code that runs on the flow graph",
         "MockProcessor is unusable (its loader conditions never match its runtime output); Limiter/Queue are covered by C01/C06",
         "fan-out (two connections with the same condition) upstream of an answering processor is accepted under either reading (the answer stops the whole walk / only its branch)",
         "every answering processor has a response connection (without one the statement does not say where the response path continues)",
